@@ -39,13 +39,20 @@ CONSTANTS MaxN,         \* children per element: 1 .. MaxN
 \* child j of an element.  Ways: way nodes (no orientation, ori = 0).  Relations: members; member 2 is a
 \* node member, the others way members with orientation CCW (1), CW (-1) or unknown (0).
 OriOf(j) == IF j = 2 THEN 0 ELSE IF j % 4 = 1 THEN 1 ELSE IF j % 4 = 3 THEN -1 ELSE 0
+\* what an update must not touch: the member's role and, for way members, the optional node path of the member
+\* (Member.Nodes, overpass "out geom" style; entries <<node ref, lon, lat>>); way nodes have neither
+RoleOf(j) == <<"outer", "", "inner", "outer">>[((j - 1) % 4) + 1]
+PathOf(j) == IF j = 2 THEN <<>> ELSE IF j % 4 = 1 THEN <<<<201, 81, 91>>, <<202, 82, 92>>>>
+             ELSE IF j % 4 = 3 THEN <<>> ELSE <<<<203, 83, 93>>>>
 ChildOf(kind, j, unann) ==
   IF kind = "way"
   THEN IF j = unann
-       THEN [typ |-> "node", ref |-> 100 + j, ver |-> 0, cs |-> 0, lat |-> 0, lon |-> 0, ori |-> 0]
-       ELSE [typ |-> "node", ref |-> 100 + j, ver |-> 10 + j, cs |-> 50 + j, lat |-> 60 + j, lon |-> 70 + j, ori |-> 0]
+       THEN [typ |-> "node", ref |-> 100 + j, ver |-> 0, cs |-> 0, lat |-> 0, lon |-> 0, ori |-> 0,
+             role |-> "", nodes |-> <<>>]
+       ELSE [typ |-> "node", ref |-> 100 + j, ver |-> 10 + j, cs |-> 50 + j, lat |-> 60 + j, lon |-> 70 + j, ori |-> 0,
+             role |-> "", nodes |-> <<>>]
   ELSE [typ |-> IF j = 2 THEN "node" ELSE "way", ref |-> 100 + j, ver |-> 10 + j, cs |-> 50 + j,
-        lat |-> 60 + j, lon |-> 70 + j, ori |-> OriOf(j)]
+        lat |-> 60 + j, lon |-> 70 + j, ori |-> OriOf(j), role |-> RoleOf(j), nodes |-> PathOf(j)]
 ChildrenOf(kind, n, unann) == [j \in 1 .. n |-> ChildOf(kind, j, unann)]
 
 \* Location symbols.  "n" = the ordinary location of the child / update (distinct, non-zero); "o" = the origin,
@@ -195,7 +202,9 @@ ExactJ(kind, c, us, t, r) ==
          ELSE /\ \E k \in Cand(us, t, i) :
                    /\ r.children[i].ver = us[k].ver /\ r.children[i].cs = us[k].cs
                    /\ r.children[i].lat = us[k].lat /\ r.children[i].lon = us[k].lon
-              /\ r.children[i].typ = c[i].typ /\ r.children[i].ref = c[i].ref
+                 \* frame: every other field of the child (type, ref, role, node path, ...) is as before
+              /\ DOMAIN r.children[i] = DOMAIN c[i]
+              /\ \A fld \in DOMAIN c[i] \ {"ver", "cs", "lat", "lon", "ori"} : r.children[i][fld] = c[i][fld]
               /\ r.children[i].ori = IF kind = "relation" THEN c[i].ori * Sgn(Flips(us, t, i)) ELSE c[i].ori
 
 \* "keeps the later updates pending in their original order"
@@ -237,6 +246,16 @@ GroupJ(c, us, t, ms, segs, lsApplied) ==
        /\ segs[j].idx \in 0 .. Len(ms) - 1
        /\ ms[segs[j].idx + 1].tgt = "way"
        /\ segs[j].line = IF segs[j].rev THEN Rev(lsApplied) ELSE lsApplied
+
+\* Query sequences.  A geometry-at-time query is a query: its answer may not depend on the queries made before
+\* it on the same way object (in particular not on a query for a later time), so every answer of a sequence is
+\* judged by GeomJ / GroupJ against the geometry of a copy taken before the sequence and updated up to the
+\* query's own time.  q = [op, t]; ans = [line, outer, inner, applied, ...].
+QueryJ(c, us, ms, q, ans) ==
+  IF q.op = "lsat" THEN GeomJ("way", c, us, q.t, ans.line, ans.applied)
+  ELSE GroupJ(c, us, q.t, ms, ans.outer \o ans.inner, ans.applied)
+\* ... and read-only: after the queries the way is what it was (children and pending updates)
+QueryPureJ(c, us, st) == st.children = c /\ st.pending = us
 
 \* Known finding #9 (way.go:174): the geometry query stops at the first too-late update.  The failure
 \* class: an applicable update is stored after a too-late one, and the observed geometry is exactly what
@@ -342,11 +361,15 @@ CasesExactOwn(k, n, l, T, un) ==
 CasesExactLoc(k, n, l, T, Own(_)) ==
   {Case(k, ChildrenOfL(k, n, 0, lc), MkList(f), p, T, Own(T)) :
       f \in [1 .. l -> ChoiceL(k, n, T, LocAll)], p \in Pairs(T), lc \in [1 .. n -> LocAll]}
-\* kind "group": a way, the time t1 (= t2) and a member list for mputil.Group
-GroupCase(n, l, T, un, f, t, ms, o) ==
-  [kind |-> "group", children |-> ChildrenOf("way", n, un), updates |-> MkList(f), t1 |-> t, t2 |-> t, tmax |-> T,
-   ts |-> o.ts, com |-> o.com, members |-> ms]
-\* every list of exactly l updates, every t, every list of exactly m members drawn from MS
-GroupCasesExact(n, l, T, m, MS, Own(_)) ==
-  {GroupCase(n, l, T, 0, f, t, ms, Own(T)) : f \in [1 .. l -> Choice("way", n, T)], t \in 0 .. T, ms \in [1 .. m -> MS]}
+\* kind "group": a way, a member list for mputil.Group and a sequence of queries [op, t] made one after the
+\* other on the same way object: op "group" = mputil.Group(members, {way}, t), op "lsat" = way.LineStringAt(t);
+\* the times may go up, down or repeat
+QueryChoices(T) == [op : {"group", "lsat"}, t : 0 .. T]
+GroupCase(n, l, T, un, f, qs, ms, o) ==
+  [kind |-> "group", children |-> ChildrenOf("way", n, un), updates |-> MkList(f), t1 |-> qs[1].t, t2 |-> qs[1].t,
+   tmax |-> T, ts |-> o.ts, com |-> o.com, members |-> ms, queries |-> qs]
+\* every list of exactly l updates, every sequence of exactly q queries out of QS, every list of exactly m members out of MS
+GroupCasesExact(n, l, T, m, MS, q, QS, Own(_)) ==
+  {GroupCase(n, l, T, 0, f, qs, ms, Own(T)) :
+      f \in [1 .. l -> Choice("way", n, T)], qs \in [1 .. q -> QS], ms \in [1 .. m -> MS]}
 =============================================================================
